@@ -57,6 +57,166 @@ theorem delImage_patch {r raw1 : Raw} {ch : List Nat} {B k : Nat}
     rw [hun b hb]
     exact ⟨delUnit_length raw1 B (k + 1) b (hl1 b hb), delUnit_bytes raw1 B k b (hl1 b hb) hk (by rw [hu1 b hb]; exact (hshape b hb).2.2)⟩
 
+/-- **the reading after an entry of the volume directory has been erased**: the slot's single record `f` (not protected) is
+gone, its blocks are free, the image is `delImage raw1 B (k + 1)` where `raw1` differs from the old image only on blocks of
+`f`.  Shared by `delete` of a file and `delete` of an empty directory. -/
+theorem erase_reading {d d3 : Disk} (hs : SInv d) (v : Vol) (fsL : List LRec) (ch : List Nat)
+    (hr : Read.ProdosT.read d.raw = .ok v) (ht : readTree d.raw (hdrTotal d.raw) = .ok (fsL, ch))
+    (B k : Nat) (hB : B ∈ ch) (hk13 : k < 13) (hkey : B = 2 → 1 ≤ k)
+    (hxm : (entryAt (unitAt d.raw B) k 39, B, k + 1) ∈ dirSlots d.raw 2 ch)
+    (hact : isAct (entryAt (unitAt d.raw B) k 39, B, k + 1) = true)
+    (f : FileRec) (hgx : slotRecs 69 d.raw (hdrTotal d.raw) [] 0 (entryAt (unitAt d.raw B) k 39, B, k + 1) = [(f, B, k + 1)])
+    (hlocked : f.locked = false)
+    (raw1 : Raw) (buf1 : Array Nat) (hsz1 : raw1.units.size = d.raw.units.size)
+    (hoth1 : ∀ j, j ∉ f.owned → raw1.units[j]? = d.raw.units[j]?) (hshape1 : ShapeOk raw1)
+    (hs1 : buf1.size = (bufOf d.raw (hdrBm d.raw) (nbmOf (hdrTotal d.raw))).size) (hok1 : BytesOk buf1)
+    (hf1 : ∀ j, freeB buf1 j = (f.owned.contains j || freeB (bufOf d.raw (hdrBm d.raw) (nbmOf (hdrTotal d.raw))) j))
+    (n3 : Next d d3 (hdrBm d.raw) (nbmOf (hdrTotal d.raw)) (delImage raw1 B (k + 1)) (clearBit (clearBit buf1 B) 2)) :
+    ∃ d4 v4, d3.flush = (.ok (), d4) ∧ SInv d4 ∧ Read.ProdosT.read d4.raw = .ok v4 ∧
+      stepOk { eofRule := id, keepsType := true, keepsAux := true, hasLock := true } v (.delete f.path) true v4 = true ∧
+      v4.label = v.label := by
+  obtain ⟨v', fsL', ch', hr', ht', c, hts, heff, hbsz, hbok⟩ := hs.ctx
+  have e1 : v' = v := by rw [hr] at hr'; injection hr' with h; exact h.symm
+  subst e1
+  have e2 : fsL' = fsL ∧ ch' = ch := by
+    rw [ht] at ht'; injection ht' with h; injection h with h1 h2; exact ⟨h1.symm, h2.symm⟩
+  obtain ⟨rfl, rfl⟩ := e2
+  obtain ⟨hw, hn, hroot, hvv, hc, hic, hnd, hchf, h2, h6, h3, hbt, hstv⟩ := root_chain_facts hs.inv v' fsL' ch' hr ht
+  have hsz := hs.inv.size
+  obtain ⟨hsplit, h1, h2', hfs2, hfiles, hdisj, hxnd, hxown, hall, hcnt0⟩ :=
+    slot_split_facts hs.inv v' fsL' ch' hr ht _ hxm
+  simp only at hsplit h1 h2' hfs2 hfiles hdisj hxnd hxown
+  rw [hgx] at hfs2 hfiles hdisj hxnd hxown
+  simp only [List.map_cons, List.map_nil, List.flatMap_cons, List.flatMap_nil, List.append_nil] at hfiles hdisj hxnd hxown
+  have hndw := (wfB_iff.1 hw).2.1
+  have hrange := (wfB_iff.1 hw).1
+  have hownlt : ∀ u ∈ f.owned, u < hdrTotal d.raw := by
+    intro u hu
+    have := (hrange u (hxown u hu)).2; rw [hvv] at this; exact this
+  have hnotown : ∀ b ∈ ch', b ∉ f.owned := by
+    intro b hb hm
+    rw [List.nodup_append] at hndw
+    exact hndw.2.2 b (hxown b hm) b (hchf b hb).2.2.2 rfl
+  have hshapech : ∀ b ∈ ch', b < d.raw.units.size ∧ (unitAt d.raw b).length = 512 ∧ ∀ x ∈ unitAt d.raw b, x < 256 := by
+    intro b hb
+    have hbl : b < d.raw.units.size := by rw [← hsz]; exact (hchf b hb).1
+    exact ⟨hbl, (hs.inv.shape.unit hbl).1, (hs.inv.shape.unit hbl).2⟩
+  have hu1 : ∀ b ∈ ch', unitAt raw1 b = unitAt d.raw b := by
+    intro b hb; unfold unitAt; rw [hoth1 b (hnotown b hb)]
+  have hpatch := delImage_patch hsz1 hu1 hshapech hB h2 hk13 hkey
+  -- the buffer after the operation marks exactly the file's blocks free
+  have hBused : freeB buf1 B = false := by
+    rw [hf1 B]
+    have h1' : f.owned.contains B = false := by simpa using hnotown B hB
+    have h2'' : freeB (bufOf d.raw (hdrBm d.raw) (nbmOf (hdrTotal d.raw))) B = false := by
+      have hnf := (wfB_iff.1 hw).2.2.2.1 B (hchf B hB).2.2.2
+      rw [hvv] at hnf
+      simp only [List.mem_filter, List.mem_range, not_and, Bool.not_eq_true] at hnf
+      exact hnf (hchf B hB).1
+    rw [h1', h2'']; rfl
+  have h2used : freeB buf1 2 = false := by
+    rw [hf1 2]
+    have h1' : f.owned.contains 2 = false := by simpa using hnotown 2 h2
+    have h2'' : freeB (bufOf d.raw (hdrBm d.raw) (nbmOf (hdrTotal d.raw))) 2 = false := by
+      have hnf := (wfB_iff.1 hw).2.2.2.1 2 (hchf 2 h2).2.2.2
+      rw [hvv] at hnf
+      simp only [List.mem_filter, List.mem_range, not_and, Bool.not_eq_true] at hnf
+      exact hnf (hchf 2 h2).1
+    rw [h1', h2'']; rfl
+  have hcovB : B / 8 < buf1.size := by rw [hs1, hbsz]; exact cover_of_lt (hchf B hB).1
+  have hcov2 : 2 / 8 < (clearBit buf1 B).size := by rw [size_clearBit, hs1, hbsz]; exact cover_of_lt (hchf 2 h2).1
+  have hf3 : ∀ j, freeB (clearBit (clearBit buf1 B) 2) j =
+      (f.owned.contains j || freeB (bufOf d.raw (hdrBm d.raw) (nbmOf (hdrTotal d.raw))) j) := by
+    intro j
+    rw [freeB_clearBit_used _ 2 (bytesOk_clearBit _ _ hok1) hcov2 (by rw [freeB_clearBit_used _ B hok1 hcovB hBused]; exact h2used),
+      freeB_clearBit_used _ B hok1 hcovB hBused, hf1 j]
+  have hbs3 : (clearBit (clearBit buf1 B) 2).size = blockSize * nbmOf (hdrTotal d.raw) := by
+    rw [size_clearBit, size_clearBit, hs1, hbsz]
+  have hbok3 : BytesOk (clearBit (clearBit buf1 B) 2) := bytesOk_clearBit _ _ (bytesOk_clearBit _ _ hok1)
+  -- the shape of the image
+  have hshape3 : ShapeOk (delImage raw1 B (k + 1)) := by
+    apply shapeOk_of_units
+    intro j hj
+    rw [delImage_size] at hj
+    by_cases hjc : j ∈ ch'
+    · exact hpatch.shape j hjc
+    · have hjB : j ≠ B := fun e => hjc (e ▸ hB)
+      have hj2 : j ≠ 2 := fun e => hjc (e ▸ h2)
+      have : unitAt (delImage raw1 B (k + 1)) j = unitAt raw1 j := by unfold unitAt; rw [delImage_other raw1 B (k + 1) j hjB hj2]
+      rw [this]; exact hshape1.unit hj
+  -- the new slot is inactive
+  have he'0 : (entryAt (unitAt (delImage raw1 B (k + 1)) B) k 39).getD 0 0 = 0 := by
+    rw [entryAt_getD _ _ _ (by omega : 0 < 39), delImage_unit raw1 B (k + 1) B (by rw [hsz1]; exact (hshapech B hB).1)
+      (by rw [hsz1]; exact (hshapech 2 h2).1)]
+    exact delUnit_slot_zero raw1 B k (by rw [hu1 B hB]; exact (hshapech B hB).2.1) hk13 hkey
+  have hinact : isAct (entryAt (unitAt (delImage raw1 B (k + 1)) B) k 39, B, k + 1) = false := by
+    unfold isAct; simp only [he'0]; decide
+  have hsr3 : slotRecs 69 (delImage raw1 B (k + 1)) (hdrTotal d.raw) [] 0
+      (entryAt (unitAt (delImage raw1 B (k + 1)) B) k 39, B, k + 1) = [] := by
+    unfold slotRecs; rw [hinact]; rfl
+  have hcnt3 : le16 (unitAt (delImage raw1 B (k + 1)) 2) 37 =
+      ((sBefore (dirSlots d.raw 2 ch') (B, k + 1) ++
+        (entryAt (unitAt (delImage raw1 B (k + 1)) B) k 39, B, k + 1) :: sAfter (dirSlots d.raw 2 ch') (B, k + 1)).filter isAct).length := by
+    rw [delImage_unit raw1 B (k + 1) 2 (by rw [hsz1]; exact (hshapech B hB).1) (by rw [hsz1]; exact (hshapech 2 h2).1),
+      delUnit_count raw1 B k (by rw [hu1 2 h2]; exact (hshapech 2 h2).2.1) hk13 hkey (by rw [hu1 2 h2]; exact (hshapech 2 h2).2.2),
+      hu1 2 h2, ← hcnt0]
+    conv => lhs; rw [hsplit]
+    rw [filter_length_mid, filter_length_mid, hact, hinact]
+    simp
+  -- the reading of the written-back image
+  obtain ⟨hrd4, htree4, htot4, hbm4, hsz4, hshape4, hgeo4, hprev4, hslots4, hslotok4, hsame4⟩ :=
+    patched_reading hs.inv v' fsL' ch' hr ht (entryAt (unitAt d.raw B) k 39) B k hxm
+      f.owned hpatch
+      (fun j hjc hjo => by
+        have hjB : j ≠ B := fun e => hjc (e ▸ hB)
+        have hj2 : j ≠ 2 := fun e => hjc (e ▸ h2)
+        rw [delImage_other raw1 B (k + 1) j hjB hj2, hoth1 j hjo])
+      (fun u hu => Or.inr (by rw [hgx]; simp only [List.map_cons, List.map_nil, List.flatMap_cons, List.flatMap_nil, List.append_nil]; exact hu))
+      hshape3 _ _ rfl rfl _ rfl hcnt3 (fun ha => by rw [hinact] at ha; cases ha)
+      (fun j _ => by rw [hsr3]; simp) _ hbs3 hbok3 _ rfl _ rfl
+  rw [hsr3, List.append_nil] at hrd4 htree4
+  -- the abstract step
+  have hv4files : ∀ (v4 : Vol), v4.files = ((sBefore (dirSlots d.raw 2 ch') (B, k + 1)).flatMap (slotRecs 69 d.raw (hdrTotal d.raw) [] 0) ++
+      (sAfter (dirSlots d.raw 2 ch') (B, k + 1)).flatMap (slotRecs 69 d.raw (hdrTotal d.raw) [] 0)).map (·.1) →
+      v4.files = ((sBefore (dirSlots d.raw 2 ch') (B, k + 1)).flatMap (slotRecs 69 d.raw (hdrTotal d.raw) [] 0)).map (·.1) ++
+        ((sAfter (dirSlots d.raw 2 ch') (B, k + 1)).flatMap (slotRecs 69 d.raw (hdrTotal d.raw) [] 0)).map (·.1) := by
+    intro v4 h; rw [h, List.map_append]
+  obtain ⟨hw4, hn4, hstep⟩ := vol_erase (P := { eofRule := id, keepsType := true, keepsAux := true, hasLock := true })
+    (v := v') (v' := nextVol v' (hdrTotal d.raw)
+        (((sBefore (dirSlots d.raw 2 ch') (B, k + 1)).flatMap (slotRecs 69 d.raw (hdrTotal d.raw) [] 0) ++
+          (sAfter (dirSlots d.raw 2 ch') (B, k + 1)).flatMap (slotRecs 69 d.raw (hdrTotal d.raw) [] 0)).map (·.1))
+        ((List.range (hdrTotal d.raw)).filter (freeB (clearBit (clearBit buf1 B) 2))))
+    hw hn (by rw [hfiles, List.append_assoc]; rfl) (hv4files _ rfl) (by rw [hvv]; rfl) (by rw [hvv]; rfl) rfl (filter_range_nodup _ _)
+    (fun u => by
+      simp only [nextVol, List.mem_filter, List.mem_range, hf3 u, Bool.or_eq_true, List.contains_eq_mem, decide_eq_true_eq]
+      rw [hvv]
+      simp only [List.mem_filter, List.mem_range]
+      constructor
+      · rintro ⟨hlt, ho | hf⟩
+        · exact Or.inr ho
+        · exact Or.inl ⟨hlt, hf⟩
+      · rintro (⟨hlt, hf⟩ | ho)
+        · exact ⟨hlt, Or.inr hf⟩
+        · refine ⟨?_, Or.inl ho⟩
+          exact hownlt u ho)
+    hlocked
+  -- the invariant of the new image
+  have hinv4 : Inv (wbRaw (delImage raw1 B (k + 1)) (hdrBm d.raw) (nbmOf (hdrTotal d.raw)) (clearBit (clearBit buf1 B) 2)) := by
+    refine ⟨hshape4, by rw [htot4, hsz4]; exact hsz, _, _, ch', hrd4, by rw [htot4]; exact htree4, hw4, hn4, hgeo4, hprev4, hroot.len, ?_⟩
+    intro y hy
+    rw [hslots4] at hy
+    rcases List.mem_append.mp hy with a | a
+    · exact hslotok4 y (List.mem_append_left _ a)
+    · rcases List.mem_cons.mp a with rfl | a'
+      · exact Or.inl (Or.inl he'0)
+      · exact hslotok4 y (List.mem_append_right _ a')
+  have hlen3 : ∀ i ∈ bmRange (hdrBm d.raw) (nbmOf (hdrTotal d.raw)), (unitAt (delImage raw1 B (k + 1)) i).length = blockSize := by
+    intro i hi
+    have hisz : i < (delImage raw1 B (k + 1)).units.size := by rw [delImage_size, hsz1]; exact c.st.exist i hi
+    exact (hshape3.unit hisz).1
+  obtain ⟨d4, hfl4, hraw4, hs4⟩ := close_op hs _ _ n3 hbs3 hlen3 hinv4 hbm4 hsz4
+  exact ⟨d4, _, hfl4, hs4, by rw [hraw4]; exact hrd4, hstep, rfl⟩
+
 /-- **`delete` succeeds**: the search finds the file in slot `k + 1` of block `B`, its destroy bit is set -/
 theorem delete_ok {d : Disk} (hs : SInv d) (path nm : Bytes)
     (hnodes : normalizePath (volName (hdrOf d.raw)) path = .ok [volName (hdrOf d.raw), nm]) (hnm : nm ≠ [])
@@ -129,96 +289,12 @@ theorem delete_ok {d : Disk} (hs : SInv d) (path nm : Bytes)
       (by rw [heff]; exact hbok) (fun b hb => by rw [heff, hbsz]; exact cover_of_lt (hchf b hb).1) hcount
       (fun b hb => (hshapech b hb).2.1)
   rw [heff] at hs1 hf1
-  have hnotown : ∀ b ∈ ch', b ∉ ownedOfEntry d.raw (entryAt (unitAt d.raw B) k 39) := fun b hb hm => (hownfacts b hm).2.2.2.2 hb
-  have hu1 : ∀ b ∈ ch', unitAt raw1 b = unitAt d.raw b := by
-    intro b hb; unfold unitAt; rw [hoth1 b (hnotown b hb)]
-  have hpatch := delImage_patch hsz1 hu1 hshapech hB h2 hk13 hkey
-  -- the buffer after the operation marks exactly the file's blocks free
-  have hBused : freeB buf1 B = false := by
-    rw [hf1 B]
-    have h1' : (ownedOfEntry d.raw (entryAt (unitAt d.raw B) k 39)).contains B = false := by simpa using hnotown B hB
-    have h2'' : freeB (bufOf d.raw (hdrBm d.raw) (nbmOf (hdrTotal d.raw))) B = false := by
-      have hnf := (wfB_iff.1 hw).2.2.2.1 B (hchf B hB).2.2.2
-      rw [hvv] at hnf
-      simp only [List.mem_filter, List.mem_range, not_and, Bool.not_eq_true] at hnf
-      exact hnf (hchf B hB).1
-    rw [h1', h2'']; rfl
-  have h2used : freeB buf1 2 = false := by
-    rw [hf1 2]
-    have h1' : (ownedOfEntry d.raw (entryAt (unitAt d.raw B) k 39)).contains 2 = false := by simpa using hnotown 2 h2
-    have h2'' : freeB (bufOf d.raw (hdrBm d.raw) (nbmOf (hdrTotal d.raw))) 2 = false := by
-      have hnf := (wfB_iff.1 hw).2.2.2.1 2 (hchf 2 h2).2.2.2
-      rw [hvv] at hnf
-      simp only [List.mem_filter, List.mem_range, not_and, Bool.not_eq_true] at hnf
-      exact hnf (hchf 2 h2).1
-    rw [h1', h2'']; rfl
-  have hcovB : B / 8 < buf1.size := by rw [hs1, hbsz]; exact cover_of_lt (hchf B hB).1
-  have hcov2 : 2 / 8 < (clearBit buf1 B).size := by rw [size_clearBit, hs1, hbsz]; exact cover_of_lt (hchf 2 h2).1
-  have hf3 : ∀ j, freeB (clearBit (clearBit buf1 B) 2) j =
-      ((ownedOfEntry d.raw (entryAt (unitAt d.raw B) k 39)).contains j || freeB (bufOf d.raw (hdrBm d.raw) (nbmOf (hdrTotal d.raw))) j) := by
-    intro j
-    rw [freeB_clearBit_used _ 2 (bytesOk_clearBit _ _ hok1) hcov2 (by rw [freeB_clearBit_used _ B hok1 hcovB hBused]; exact h2used),
-      freeB_clearBit_used _ B hok1 hcovB hBused, hf1 j]
-  have hbs3 : (clearBit (clearBit buf1 B) 2).size = blockSize * nbmOf (hdrTotal d.raw) := by
-    rw [size_clearBit, size_clearBit, hs1, hbsz]
-  have hbok3 : BytesOk (clearBit (clearBit buf1 B) 2) := bytesOk_clearBit _ _ (bytesOk_clearBit _ _ hok1)
-  -- the shape of the image
-  have hshape1 := shape_swapOnly hs.inv.shape hswap1
-  have hshape3 : ShapeOk (delImage raw1 B (k + 1)) := by
-    apply shapeOk_of_units
-    intro j hj
-    rw [delImage_size] at hj
-    by_cases hjc : j ∈ ch'
-    · exact hpatch.shape j hjc
-    · have hjB : j ≠ B := fun e => hjc (e ▸ hB)
-      have hj2 : j ≠ 2 := fun e => hjc (e ▸ h2)
-      have : unitAt (delImage raw1 B (k + 1)) j = unitAt raw1 j := by unfold unitAt; rw [delImage_other raw1 B (k + 1) j hjB hj2]
-      rw [this]; exact hshape1.unit hj
-  -- the new slot is inactive
-  have he'0 : (entryAt (unitAt (delImage raw1 B (k + 1)) B) k 39).getD 0 0 = 0 := by
-    rw [entryAt_getD _ _ _ (by omega : 0 < 39), delImage_unit raw1 B (k + 1) B (by rw [hsz1]; exact (hshapech B hB).1)
-      (by rw [hsz1]; exact (hshapech 2 h2).1)]
-    exact delUnit_slot_zero raw1 B k (by rw [hu1 B hB]; exact (hshapech B hB).2.1) hk13 hkey
-  have hinact : isAct (entryAt (unitAt (delImage raw1 B (k + 1)) B) k 39, B, k + 1) = false := by
-    unfold isAct; simp only [he'0]; decide
-  have hsr3 : slotRecs 69 (delImage raw1 B (k + 1)) (hdrTotal d.raw) [] 0
-      (entryAt (unitAt (delImage raw1 B (k + 1)) B) k 39, B, k + 1) = [] := by
-    unfold slotRecs; rw [hinact]; rfl
-  have hact : isAct (entryAt (unitAt d.raw B) k 39, B, k + 1) = true := by
-    unfold isAct; simp only [ne_eq, decide_eq_true_eq]; omega
-  have hcnt3 : le16 (unitAt (delImage raw1 B (k + 1)) 2) 37 =
-      ((sBefore (dirSlots d.raw 2 ch') (B, k + 1) ++
-        (entryAt (unitAt (delImage raw1 B (k + 1)) B) k 39, B, k + 1) :: sAfter (dirSlots d.raw 2 ch') (B, k + 1)).filter isAct).length := by
-    rw [delImage_unit raw1 B (k + 1) 2 (by rw [hsz1]; exact (hshapech B hB).1) (by rw [hsz1]; exact (hshapech 2 h2).1),
-      delUnit_count raw1 B k (by rw [hu1 2 h2]; exact (hshapech 2 h2).2.1) hk13 hkey (by rw [hu1 2 h2]; exact (hshapech 2 h2).2.2),
-      hu1 2 h2, ← hcnt0]
-    conv => lhs; rw [hsplit]
-    rw [filter_length_mid, filter_length_mid, hact, hinact]
-    simp
-  -- the reading of the written-back image
-  obtain ⟨hrd4, htree4, htot4, hbm4, hsz4, hshape4, hgeo4, hprev4, hslots4, hslotok4, hsame4⟩ :=
-    patched_reading hs.inv v' fsL' ch' hr ht (entryAt (unitAt d.raw B) k 39) B k hxm
-      (ownedOfEntry d.raw (entryAt (unitAt d.raw B) k 39)) hpatch
-      (fun j hjc hjo => by
-        have hjB : j ≠ B := fun e => hjc (e ▸ hB)
-        have hj2 : j ≠ 2 := fun e => hjc (e ▸ h2)
-        rw [delImage_other raw1 B (k + 1) j hjB hj2, hoth1 j hjo])
-      (fun u hu => Or.inr (by rw [hgx]; simp only [List.map_cons, List.map_nil, List.flatMap_cons, List.flatMap_nil, List.append_nil]; rw [hown]; exact hu))
-      hshape3 _ _ rfl rfl _ rfl hcnt3 (fun ha => by rw [hinact] at ha; cases ha)
-      (fun j _ => by rw [hsr3]; simp) _ hbs3 hbok3 _ rfl _ rfl
-  rw [hsr3, List.append_nil] at hrd4 htree4
-  -- the abstract step
-  have hv4files : ∀ (v4 : Vol), v4.files = ((sBefore (dirSlots d.raw 2 ch') (B, k + 1)).flatMap (slotRecs 69 d.raw (hdrTotal d.raw) [] 0) ++
-      (sAfter (dirSlots d.raw 2 ch') (B, k + 1)).flatMap (slotRecs 69 d.raw (hdrTotal d.raw) [] 0)).map (·.1) →
-      v4.files = ((sBefore (dirSlots d.raw 2 ch') (B, k + 1)).flatMap (slotRecs 69 d.raw (hdrTotal d.raw) [] 0)).map (·.1) ++
-        ((sAfter (dirSlots d.raw 2 ch') (B, k + 1)).flatMap (slotRecs 69 d.raw (hdrTotal d.raw) [] 0)).map (·.1) := by
-    intro v4 h; rw [h, List.map_append]
   obtain ⟨hfp, _, hfl, hfa, _, _, _⟩ := readFile_rec_fields d.raw (hdrTotal d.raw) _ [] f hrf
   have hfpath : f.path = upper nm := by rw [hfp, baseRec_path_root, hname]
   have hlocked : f.locked = false := by
     rw [hfl]
     have hua : UniformAcc ((entryAt (unitAt d.raw B) k 39).getD 30 0) := by
-      rcases hroot.slots _ hxm with h0 | ⟨_, hu, _⟩
+      rcases (hroot.slots _ hxm).file (by simp only; omega) with h0 | ⟨_, hu, _⟩
       · simp only at h0; rw [h0] at hst; simp at hst
       · exact hu
     have hlt : (entryAt (unitAt d.raw B) k 39).getD 30 0 < 256 :=
@@ -230,50 +306,20 @@ theorem delete_ok {d : Disk} (hs : SInv d) (path nm : Bytes)
     unfold baseRec
     simp only
     exact hrl
-  obtain ⟨hw4, hn4, hstep⟩ := vol_erase (P := { eofRule := id, keepsType := true, keepsAux := true, hasLock := true })
-    (v := v') (v' := nextVol v' (hdrTotal d.raw)
-        (((sBefore (dirSlots d.raw 2 ch') (B, k + 1)).flatMap (slotRecs 69 d.raw (hdrTotal d.raw) [] 0) ++
-          (sAfter (dirSlots d.raw 2 ch') (B, k + 1)).flatMap (slotRecs 69 d.raw (hdrTotal d.raw) [] 0)).map (·.1))
-        ((List.range (hdrTotal d.raw)).filter (freeB (clearBit (clearBit buf1 B) 2))))
-    hw hn (by rw [hfiles, List.append_assoc]; rfl) (hv4files _ rfl) (by rw [hvv]; rfl) (by rw [hvv]; rfl) rfl (filter_range_nodup _ _)
-    (fun u => by
-      simp only [nextVol, List.mem_filter, List.mem_range, hf3 u, Bool.or_eq_true, List.contains_eq_mem, decide_eq_true_eq]
-      rw [hvv]
-      simp only [List.mem_filter, List.mem_range]
-      rw [hown]
-      constructor
-      · rintro ⟨hlt, ho | hf⟩
-        · exact Or.inr ho
-        · exact Or.inl ⟨hlt, hf⟩
-      · rintro (⟨hlt, hf⟩ | ho)
-        · exact ⟨hlt, Or.inr hf⟩
-        · refine ⟨?_, Or.inl ho⟩
-          have := (hownfacts u ho).2.2.1
-          rw [← hsz] at this; exact this)
-    hlocked
+  have hact : isAct (entryAt (unitAt d.raw B) k 39, B, k + 1) = true := by
+    unfold isAct; simp only [ne_eq, decide_eq_true_eq]; omega
+  obtain ⟨d4, v4, hfl4, hs4, hrd4, hstep, hlab⟩ := erase_reading hs v' fsL' ch' hr ht B k hB hk13 hkey hxm hact f hgx hlocked
+    raw1 buf1 hsz1 (fun j hj => hoth1 j (by rw [← hown]; exact hj)) (shape_swapOnly hs.inv.shape hswap1) hs1 hok1
+    (fun j => by rw [hf1 j, hown]) n3
   rw [hfpath] at hstep
-  -- the invariant of the new image
-  have hinv4 : Inv (wbRaw (delImage raw1 B (k + 1)) (hdrBm d.raw) (nbmOf (hdrTotal d.raw)) (clearBit (clearBit buf1 B) 2)) := by
-    refine ⟨hshape4, by rw [htot4, hsz4]; exact hsz, _, _, ch', hrd4, by rw [htot4]; exact htree4, hw4, hn4, hgeo4, hprev4, hroot.len, ?_⟩
-    intro y hy
-    rw [hslots4] at hy
-    rcases List.mem_append.mp hy with a | a
-    · exact hslotok4 y (List.mem_append_left _ a)
-    · rcases List.mem_cons.mp a with rfl | a'
-      · exact Or.inl he'0
-      · exact hslotok4 y (List.mem_append_right _ a')
-  have hlen3 : ∀ i ∈ bmRange (hdrBm d.raw) (nbmOf (hdrTotal d.raw)), (unitAt (delImage raw1 B (k + 1)) i).length = blockSize := by
-    intro i hi
-    have hisz : i < (delImage raw1 B (k + 1)).units.size := by rw [delImage_size, hsz1]; exact c.st.exist i hi
-    exact (hshape3.unit hisz).1
-  obtain ⟨d4, hfl4, hraw4, hs4⟩ := close_op hs _ _ n3 hbs3 hlen3 hinv4 hbm4 hsz4
-  exact ⟨d3, d4, _, hdel, hfl4, hs4, by rw [hraw4]; exact hrd4, hstep, rfl⟩
+  exact ⟨d3, d4, v4, hdel, hfl4, hs4, hrd4, hstep, hlab⟩
 
 /-- `delete` of a name the search does not find (or an invalid name) answers `PATH NOT FOUND` and changes nothing -/
-theorem delete_notfound {d : Disk} {bm cnt : Nat} {ch : List Nat} (c : RootCtx d bm cnt ch) (hroot : Root d.raw ch) (path nm : Bytes)
+theorem delete_notfound {d : Disk} {bm cnt : Nat} {ch : List Nat} (c : RootCtx d bm cnt ch) (path nm : Bytes)
     (hnodes : normalizePath (volName (hdrOf d.raw)) path = .ok [volName (hdrOf d.raw), nm]) (hnm : nm ≠ [])
     (hnv : NotVol (volName (hdrOf d.raw)) path)
-    (hnone : isNameValid nm = false ∨ (dirSlots d.raw 2 ch).find? (isHit fileTypes nm) = none) :
+    (hnone : isNameValid nm = false ∨ (dirSlots d.raw 2 ch).find? (isHit fileTypes nm) = none)
+    (hnodir : isNameValid nm = true → (dirSlots d.raw 2 ch).find? (isHit [stSubDirEntry] nm) = none) :
     delete path repaired d = (.error .pathNotFound, d) := by
   have hff : ∃ e, findFile path d = (.error e, d) ∧ e ≠ .panic := by
     rw [findFile_root' c path nm hnodes hnm]
@@ -285,25 +331,7 @@ theorem delete_notfound {d : Disk} {bm cnt : Nat} {ch : List Nat} (c : RootCtx d
       · have hv' : isNameValid nm = false := by simpa using hv
         rw [hv']; exact ⟨_, rfl, by decide⟩
   obtain ⟨e, hfe, hep⟩ := hff
-  have hdk : findDirKeyBlock path d = (.error .pathNotFound, d) := by
-    by_cases hl : nm.length ≤ 15
-    · exact findDirKeyBlock_root c path nm hnodes hnm hnv (no_dir_hit hroot nm hl)
-    · -- a name of more than 15 characters is not valid: the search answers `SYNTAX`
-      have hinv : isNameValid nm = false := by
-        cases hvv : isNameValid nm with
-        | false => rfl
-        | true => exact absurd (isNameValid_len nm hvv).2 hl
-      unfold findDirKeyBlock
-      simp only [bind_def]
-      rw [bind_ok _ _ d d _ (getVolHeader_root c)]
-      unfold NotVol at hnv
-      simp only [hnv, ↓reduceIte]
-      have hs := searchVolume_root c [stSubDirEntry] path nm hnodes hnm
-      unfold rootSearch at hs
-      rw [hinv] at hs
-      simp only [Bool.not_false, ↓reduceIte] at hs
-      rw [bind_ok _ _ d d _ (attempt_err _ d d _ hs (by decide))]
-      rfl
+  have hdk : findDirKeyBlock path d = (.error .pathNotFound, d) := findDirKeyBlock_nodir c path nm hnodes hnm hnv hnodir
   unfold delete
   simp only [bind_def]
   rw [bind_ok _ _ d d _ (attempt_err _ d d e hfe hep)]
@@ -340,37 +368,5 @@ theorem delete_protected {d : Disk} {bm cnt : Nat} {ch : List Nat} (c : RootCtx 
   try simp only []
   rw [if_pos hacc]
   rfl
-
-/-- **`delete(path)` refines the abstract `delete`** for a path whose normal form is `[volume, name]` (a file of the
-volume directory): whatever the outcome — deleted, `PATH NOT FOUND`, `WRITE PROTECTED` — the state after `get_img()`
-satisfies `SInv` again, and the readings before and after are related by the step the abstract specification allows
-for `delete NAME` with that result; a refusal changes nothing -/
-theorem delete_refines {d : Disk} (hs : SInv d) (path nm : Bytes)
-    (hnodes : normalizePath (volName (hdrOf d.raw)) path = .ok [volName (hdrOf d.raw), nm]) (hnm : nm ≠ [])
-    (hnv : NotVol (volName (hdrOf d.raw)) path) :
-    ∃ res d1 d4 v v4, delete path repaired d = (res, d1) ∧ d1.flush = (.ok (), d4) ∧ SInv d4 ∧
-      Read.ProdosT.read d.raw = .ok v ∧ Read.ProdosT.read d4.raw = .ok v4 ∧
-      stepOk { eofRule := id, keepsType := true, keepsAux := true, hasLock := true } v (.delete (upper nm))
-        (match res with | .ok _ => true | .error _ => false) v4 = true ∧ v4.label = v.label := by
-  obtain ⟨v, fsL, ch, hr, ht, c, hts, heff, hbsz, hbok⟩ := hs.ctx
-  obtain ⟨hw, hn, hroot, hvv, hc, hic, hnd, hchf, h2, h6, h3, hbt, hstv⟩ := root_chain_facts hs.inv v fsL ch hr ht
-  have hrefuse : ∀ e, delete path repaired d = (.error e, d) →
-      ∃ res d1 d4 v v4, delete path repaired d = (res, d1) ∧ d1.flush = (.ok (), d4) ∧ SInv d4 ∧
-        Read.ProdosT.read d.raw = .ok v ∧ Read.ProdosT.read d4.raw = .ok v4 ∧
-        stepOk { eofRule := id, keepsType := true, keepsAux := true, hasLock := true } v (.delete (upper nm))
-          (match res with | .ok _ => true | .error _ => false) v4 = true ∧ v4.label = v.label := by
-    intro e he
-    obtain ⟨d4, hf4, hraw4, hs4⟩ := refused_same hs
-    exact ⟨.error e, d, d4, v, v, he, hf4, hs4, hr, by rw [hraw4]; exact hr, stepOk_refused_same hw _, rfl⟩
-  by_cases hv : isNameValid nm = true
-  · cases hx : (dirSlots d.raw 2 ch).find? (isHit fileTypes nm) with
-    | none => exact hrefuse _ (delete_notfound c hroot path nm hnodes hnm hnv (Or.inr hx))
-    | some x =>
-      by_cases hacc : Ent.access x.1 &&& 0x80 = 0
-      · exact hrefuse _ (delete_protected c path nm hnodes hnm hv x hx hacc)
-      · obtain ⟨d3, d4, v4, hdel, hf4, hs4, hr4, hstep, hlab⟩ := delete_ok hs path nm hnodes hnm hv x v fsL ch hr ht hx hacc
-        exact ⟨.ok (), d3, d4, v, v4, hdel, hf4, hs4, hr, hr4, hstep, hlab⟩
-  · have hv' : isNameValid nm = false := by simpa using hv
-    exact hrefuse _ (delete_notfound c hroot path nm hnodes hnm hnv (Or.inl hv'))
 
 end A2Verif.FsProdos
